@@ -210,6 +210,63 @@ Proof.
   intros. unfold LocusConfig_eq. rewrite !andb_true_iff, !Z.eqb_eq, Qeq_bool_iff, eqb_true_iff. tauto.
 Qed.
 
+
+(* ---------------------------------------------------------------- Epoch: the key equality of the state-space cache *)
+Section EpochEq.
+  Definition same_sizes (a b : list (string * Q)) : Prop :=
+    Forall2 (fun x y => fst x = fst y /\ (snd x == snd y)%Q) a b.
+  Definition same_mig (a b : list (string * string * Q)) : Prop :=
+    Forall2 (fun x y => fst x = fst y /\ (snd x == snd y)%Q) a b.
+
+  Lemma list_eqb_Forall2 {A} (eqb : A -> A -> bool) (P : A -> A -> Prop) :
+    (forall x y, eqb x y = true -> P x y) -> forall l1 l2, list_eqb eqb l1 l2 = true -> Forall2 P l1 l2.
+  Proof.
+    intros H. induction l1 as [|x l1 IH]; intros [|y l2] E; cbn in E; try discriminate; [constructor|].
+    apply andb_true_iff in E. destruct E as [E1 E2]. constructor; [apply H; exact E1 | apply IH; exact E2].
+  Qed.
+
+  Lemma list_eqb_refl {A} (eqb : A -> A -> bool) : (forall x, eqb x x = true) -> forall l, list_eqb eqb l l = true.
+  Proof. intros H. induction l as [|x l IH]; [reflexivity|]. cbn. rewrite H, IH. reflexivity. Qed.
+
+  (* epochs that compare equal have the same population sizes and migration rates, key by key, in the same order *)
+  Theorem gen_epoch_eq_sound : forall a b, Epoch_eq a b = true ->
+    same_sizes (ev_sizes a) (ev_sizes b) /\ same_mig (ev_mig a) (ev_mig b).
+  Proof.
+    intros a b E. unfold Epoch_eq in E. apply andb_true_iff in E. destruct E as [E1 E2]. split.
+    - eapply list_eqb_Forall2; [|exact E1]. intros x y H. apply andb_true_iff in H. destruct H as [H1 H2].
+      split; [apply String.eqb_eq; exact H1 | apply Qeq_bool_iff; exact H2].
+    - eapply list_eqb_Forall2; [|exact E2]. intros [[p q] v] [[p' q'] v'] H. cbn in H.
+      apply andb_true_iff in H. destruct H as [H12 H3]. apply andb_true_iff in H12. destruct H12 as [H1 H2].
+      apply String.eqb_eq in H1. apply String.eqb_eq in H2. cbn. subst. split; [reflexivity | apply Qeq_bool_iff; exact H3].
+  Qed.
+
+  Theorem gen_epoch_eq_refl : forall a, Epoch_eq a a = true.
+  Proof.
+    intros a. unfold Epoch_eq. rewrite !list_eqb_refl; [reflexivity| |].
+    - intros [[p q] v]. cbn. rewrite !String.eqb_refl. cbn. apply Qeq_bool_iff. reflexivity.
+    - intros [k v]. cbn. rewrite String.eqb_refl. cbn. apply Qeq_bool_iff. reflexivity.
+  Qed.
+
+  (* the times of an epoch take no part in the comparison *)
+  Theorem gen_epoch_eq_ignores_times : forall a s e,
+    Epoch_eq a (mkEpochVal s e (ev_sizes a) (ev_names a) (ev_npops a) (ev_mig a)) = true.
+  Proof. intros a s e. exact (gen_epoch_eq_refl a). Qed.
+
+  (* hence: whatever is computed from the sizes and rates of an epoch alone (the transitions of a state space) is the same for
+     epochs that compare equal - the hypothesis eqk_sound of the cache theorems (proofs/CacheProofs.v, proofs/GenCacheEquiv.v) *)
+  Theorem source_eqk_sound : forall (Tr : Type) (trans_of : epoch_val -> Tr),
+    (forall a b, same_sizes (ev_sizes a) (ev_sizes b) -> same_mig (ev_mig a) (ev_mig b) -> trans_of a = trans_of b) ->
+    forall a b, Epoch_eq a b = true -> trans_of a = trans_of b.
+  Proof. intros Tr trans_of H a b E. destruct (gen_epoch_eq_sound a b E) as [H1 H2]. apply H; assumption. Qed.
+
+  (* Epoch.__init__: the sizes are kept as given, and every rate that was given is kept *)
+  Theorem gen_epoch_init_keeps_sizes : forall s e ps mr,
+    ev_sizes (Epoch_init s e (Some ps) mr) = ps /\ ev_start (Epoch_init s e (Some ps) mr) = s /\ ev_end (Epoch_init s e (Some ps) mr) = e.
+  Proof. intros. repeat split. Qed.
+End EpochEq.
+
+Print Assumptions gen_epoch_eq_sound.
+Print Assumptions source_eqk_sound.
 Print Assumptions gen_locus_config_guards.
 Print Assumptions source_locus_config_rejects.
 Print Assumptions gen_locus_initial_states_eq.
